@@ -30,10 +30,10 @@ def run_check(tier, seed, replay=None):
     if tags.get("subset:ok", 0) == 0 or probes_ok == 0:
         if not rep.new:
             raise ToolError("vacuous run: %s" % tags)
-    s = next(e for e in events if e["tag"] == "subset" and e["st"] == "ok")
+    s = next((e for e in events if e["tag"] == "subset" and e["st"] == "ok"), None)
     rc = rep.finish()
     write_evidence("C18", tier, seed, {"states": n + 1, "transitions": n, "states_note": "states of the trace specification LiftTrace (one per lifted module)",
-        "traces_validated_against_impl": n, "samples": [{k: s[k] for k in ("version", "caps", "mm", "types", "constants", "ops", "functions")}],
+        "traces_validated_against_impl": n, "samples": [{k: s[k] for k in ("version", "caps", "mm", "types", "constants", "ops", "functions")}] if s else [],
         "event_classes": tags, "opcodes_probed_and_lifted": probes_ok, "exhaustive": False},
         BASE_ASSUMPTIONS + ["the subset is what the property names: scalar / vector / matrix / pointer / array / struct / function types declared before use, 32-bit constants and composites, blocks of result-producing instructions, phis, non-switch terminators; branches go to blocks already seen (the lifter resolves jumps eagerly)",
             "spec/LiftSupported.json: the 507 result-producing opcodes (id / integer-literal operands) the pinned tree lifts, found by probing; an opcode dropping out of this set is a violation, opcodes outside it are not judged",
